@@ -122,8 +122,10 @@ def cmd_check(pid, tier):
         if "error" in e:
             errors.append(e["error"])
     if errors:
-        for e in errors:
-            print(f"HARNESS-ERROR property={pid} {e}", file=sys.stderr)
+        for e in errors[:2]:
+            print(f"HARNESS-ERROR property={pid} {e[:2500]}", file=sys.stderr)
+        if len(errors) > 2:
+            print(f"HARNESS-ERROR property={pid} ... and {len(errors) - 2} more shard errors", file=sys.stderr)
         return 2
 
     merged = evidence.merge(exports)
